@@ -42,6 +42,10 @@ SIG_CLOSED_CHANNEL = 'redirect-sources:source-active-after-its-channel-closed:co
 SIG_CANCELLED_READ = 'stream-read:cancelled-read-loses-collected-data'
 SIG_UNDECODABLE = 'exit-status-with-output-hole:undecodable-text-flushed-inside-read'
 
+SIG_DRAIN_PEER_CLOSE_HANGS = 'drain:never-returns:peer-closed-with-data-unsent-while-received-data-is-unread'
+SIG_DRAIN_PEER_CLOSE_RETURNS = 'drain:returns-normally:peer-closed-with-data-unsent'
+SIG_DRAIN_FALSE_FAILURE = 'drain:fails-although-all-data-was-sent-and-the-channel-is-still-there'
+
 Bad = Optional[Tuple[str, str]]
 
 
@@ -141,6 +145,111 @@ async def drain_gone(side: str, how: str) -> Bad:
             return SIG_DRAIN_GONE, '%s: drain() neither returned nor raised (the channel is closed)' % what
         if how == 'cut' and o == 'returned':
             return SIG_DRAIN_CUT_RETURNS, '%s: drain() returned normally' % what
+        return None
+    finally:
+        c.abort()
+        await pair.settle(10)
+
+
+# ---------------------------------------------------------------------------
+# drain() and the peer's CLOSE (C09 E9) / drain() after the data really went out
+
+
+async def drain_peer_close(total: int, window: int, unread: int) -> Bad:
+    """the documented write/drain idiom against a command that ignores its stdin: the client writes `total` bytes
+    (the server's window lets a fraction through: writing pauses) and waits in drain(); the server prints `unread`
+    bytes (between one and two client windows: the first window pauses the reader, the rest waits in the client's channel),
+    exits and closes.  The peer's CLOSE throws the client's unsent data away; connection_lost has to wait until the
+    application reads - which it does after drain().  drain() must end, and must not report success."""
+    async def handler(process: Any) -> None:
+        try:
+            process.stdout.write(b'o' * unread)
+            process.exit(1)
+        except Exception:       # noqa: BLE001
+            pass
+    c, sconn, hub = await pair.make_pair(server_opts=dict(process_factory=handler, encoding=None, window=16384))
+    try:
+        p = await c.create_process('work', encoding=None, window=window)
+        p.stdin.write(b'i' * total)
+        t = asyncio.ensure_future(p.stdin.drain())
+        await idle(hub, 40)
+        await pair.settle(40)
+        where = ('client wrote %d bytes to stdin (server window 16384: writing paused) and waits in drain(); the server '
+                 'ignored stdin, wrote %d bytes to stdout (client window %d, nothing read yet), exited with status 1 and '
+                 'closed the channel' % (total, unread, window))
+        o = outcome(t)
+        if not p.channel.is_closing():
+            if not t.done():
+                t.cancel()
+            return None         # the peer's CLOSE has not come (flow control held it back): not this scenario
+        if o == 'pending':
+            t.cancel()
+            return SIG_DRAIN_PEER_CLOSE_HANGS, ('%s: drain() neither returned nor raised (connection still up: %r); '
+                                                'the application cannot get to its reads' % (where, not c.is_closed()))
+        if o == 'returned':
+            return SIG_DRAIN_PEER_CLOSE_RETURNS, ('%s: drain() returned normally although %d bytes were never sent and '
+                                                  'nothing more can be written' % (where, total - 16384))
+        try:
+            r = await asyncio.wait_for(p.wait(), 10)
+        except BaseException as e:      # noqa: BLE001
+            return 'drain:peer-close:wait-raised:' + type(e).__name__, '%s: drain() %s, then wait() raised %r' % (where, o, e)
+        if r.exit_status != 1 or len(r.stdout) != unread:
+            return ('exit-status-with-incomplete-output:after-failed-drain', '%s: drain() %s; wait() gave exit status %r '
+                    'with stdout %d of %d bytes' % (where, o, r.exit_status, len(r.stdout), unread))
+        return None
+    finally:
+        c.abort()
+        await pair.settle(10)
+
+
+async def drain_idiom(kind: str, total: int, window: int) -> Bad:
+    """a drain() that has to wait and whose data IS delivered: 'eof' = write(total); write_eof(); drain() in a
+    server handler; 'redirect' = redirect(stdout=source); drain() (examples/redirect_server.py), the source delivers
+    `total` bytes and ends.  The client reads everything.  The call must return normally: the channel is still there."""
+    st: Dict[str, Any] = {}
+    src = asyncio.StreamReader()
+    ready = asyncio.Event()
+
+    async def handler(process: Any) -> None:
+        try:
+            if kind == 'eof':
+                process.stdout.write(b'x' * total)
+                process.stdout.write_eof()
+            else:
+                await process.redirect(stdout=src)
+            ready.set()
+            await process.stdout.drain()
+            st['drain'] = 'returned'
+        except BaseException as e:      # noqa: BLE001
+            st['drain'] = 'raised ' + type(e).__name__
+        try:
+            process.exit(0)
+        except Exception:       # noqa: BLE001
+            pass
+    c, sconn, hub = await pair.make_pair(server_opts=dict(process_factory=handler, encoding=None))
+    try:
+        p = await c.create_process('x', encoding=None, window=window, stdin=asyncssh.DEVNULL)
+        await asyncio.wait_for(ready.wait(), 10)
+        await idle(hub)
+        if 'drain' in st and kind == 'redirect':
+            return None         # nothing to wait for in this tree: no claim
+        if kind == 'redirect':
+            src.feed_data(b'x' * total)
+            src.feed_eof()
+        try:
+            r = await asyncio.wait_for(p.wait(), 15)
+            got = (r.exit_status, len(r.stdout))
+        except BaseException as e:      # noqa: BLE001
+            got = ('wait() raised ' + type(e).__name__, 0)
+        await pair.settle(20)
+        what = {'eof': 'server handler: stdout.write(%d bytes); stdout.write_eof(); await stdout.drain()' % total,
+                'redirect': 'server handler: await process.redirect(stdout=source); await process.stdout.drain(); the '
+                            'source delivered %d bytes and ended' % total}[kind]
+        if got[1] == total and st.get('drain', '').startswith('raised'):
+            return SIG_DRAIN_FALSE_FAILURE, ('%s (client window %d): the client received all %d bytes and EOF, the '
+                                             'channel was open, yet drain() %s' % (what, window, total, st['drain']))
+        if got != (0, total) or st.get('drain') != 'returned':
+            return ('drain:idiom:data-or-exit-status-lost', '%s: client got %r, drain() %r' % (what, got, st.get('drain')))
         return None
     finally:
         c.abort()
@@ -676,9 +785,11 @@ async def run_proc_drain(cases: Sequence[Tuple[List[str], List[str]]]) -> List[s
         def apply(ev: str) -> None:
             nonlocal registered
             if ev == 'p':
-                sess.pause_writing()
+                chan.pause_session()
             elif ev == 'r':
-                sess.resume_writing()
+                chan.resume_session()
+            elif ev in ('c0', 'c1'):
+                chan.peer_close(ev == 'c1')
             elif ev == 'l0':
                 sess.connection_lost(None)
                 registered = False
